@@ -48,3 +48,44 @@ Definition g_compute_spectrum_slot_vs_bandwidth (bandwidth spacing bit_rate : Z)
   let number_of_wavelengths := (cdiv bandwidth bit_rate) in
   let total_number_of_slots := ((cdiv spacing slot_width) * number_of_wavelengths) in
   (number_of_wavelengths, total_number_of_slots).
+
+(* gnpy/topology/spectrum_assignment.py: compute_n_m, decision taken for one (N, M) of the request *)
+Definition g_cnm_step (test : bitmap) (required_m remaining_slots_to_serve per_channel_m : Z) (policy : policy) (s : slot_req) : res step_res :=
+  match s with
+  | (Some n, Some m) =>
+    let* available_slots := determine_slot_numbers test n m m in
+    if (available_slots =? 0) then Ok ReturnBlocked else
+    Ok (Continue n m)
+  | (None, Some m) =>
+    let* n_sel := select_free test m policy in
+    match n_sel with None => Ok ReturnBlocked | Some n =>
+    Ok (Continue n m) end
+  | (Some n, None) =>
+    let* m := determine_slot_numbers test n remaining_slots_to_serve per_channel_m in
+    if ((m =? 0) || (remaining_slots_to_serve <=? 0)) then Ok Break else
+    Ok (Continue n m)
+  | (None, None) =>
+    if (remaining_slots_to_serve <=? 0) then Ok Break else
+    let* n_sel := select_free test remaining_slots_to_serve policy in
+    match n_sel with None => Ok Break | Some n =>
+    let m := remaining_slots_to_serve in
+    Ok (Continue n m) end
+  end.
+
+(* gnpy/topology/spectrum_assignment.py: pth_assign_spectrum, one request *)
+Definition g_pth_assign_one (policy : policy) (st : state) (rq : request) : res (state * outcome) :=
+  if pre_blocked rq then Ok (st, Skipped) else
+  let '(nb_wl, required_m) :=
+    g_compute_spectrum_slot_vs_bandwidth (bandwidth rq) (spacing rq) (bit_rate rq) slot_width in
+  let '(_, per_channel_m) :=
+    g_compute_spectrum_slot_vs_bandwidth (bit_rate rq) (spacing rq) (bit_rate rq) slot_width in
+  if all_m_defined (slots rq) &&
+     (let nb_channels_of_request :=
+        fold_left (fun acc s => match snd s with Some m => acc + (m / per_channel_m) | None => acc end) (slots rq) 0 in
+      (nb_channels_of_request <? nb_wl))
+  then Ok (st, Blocked "NOT_ENOUGH_RESERVED_SPECTRUM") else
+  let* r := compute_n_m st required_m per_channel_m policy (slots rq) (path_oms rq) in
+  let '(selected_n, selected_m, remaining_slots_to_serve) := r in
+  if (0 <? remaining_slots_to_serve) then Ok (st, Blocked "NO_SPECTRUM") else
+  let* st' := commit st (path_oms rq) selected_n selected_m (rid rq) nb_wl in
+  Ok (st', Accepted selected_n selected_m).
